@@ -44,10 +44,11 @@ type H5Cfg struct {
 	Weights       []float64 `json:"weights,omitempty"`
 	Rates         []int     `json:"rates,omitempty"` // scripted underlying rate per evaluation (cyclic)
 	RandBeyond    bool      `json:"rand_beyond,omitempty"`
-	ConstRate     int       `json:"const_rate,omitempty"` // kind constant: N of "N/<freq>"
-	PureTicks     int64     `json:"pure_ticks,omitempty"` // dist kind: evaluate this many consecutive sub-ticks back to back
-	BodyNs        []int64   `json:"body_ns,omitempty"`    // duration of the k-th started iteration (cyclic); empty = instantaneous
-	Direct        bool      `json:"direct,omitempty"`     // evaluate with a plain ticker loop instead of the real pool (large rates)
+	ConstRate     int       `json:"const_rate,omitempty"`    // kind constant: N of "N/<freq>"
+	PureTicks     int64     `json:"pure_ticks,omitempty"`    // dist kind: evaluate this many consecutive sub-ticks back to back
+	EvalSleepNs   []int64   `json:"eval_sleep_ns,omitempty"` // the k-th rate evaluation takes this long (cyclic; the first is never delayed)
+	BodyNs        []int64   `json:"body_ns,omitempty"`       // duration of the k-th started iteration (cyclic); empty = instantaneous
+	Direct        bool      `json:"direct,omitempty"`        // evaluate with a plain ticker loop instead of the real pool (large rates)
 }
 
 type h5Call struct {
@@ -74,16 +75,23 @@ type h5Shared struct {
 	lastInner   int
 	pureCycles  int64
 	pureViol    string
+	bodyBegin   []int64 // simulated instant at which the k-th iteration began, and its planned duration
+	bodyDur     []int64
 }
 
 // beginBody counts a started iteration and returns its planned duration (atomic: no scheduling points here).
-func (sh *h5Shared) beginBody(c *H5Cfg) int64 {
+func (sh *h5Shared) beginBody(c *H5Cfg, now int64) int64 {
 	k := sh.started
 	sh.started++
-	if len(c.BodyNs) == 0 {
-		return 0
+	var d int64
+	if len(c.BodyNs) > 0 {
+		d = c.BodyNs[int(k)%len(c.BodyNs)]
 	}
-	return c.BodyNs[int(k)%len(c.BodyNs)]
+	if len(sh.bodyBegin) < 200000 {
+		sh.bodyBegin = append(sh.bodyBegin, now)
+		sh.bodyDur = append(sh.bodyDur, d)
+	}
+	return d
 }
 
 // h5PureLoop evaluates c.PureTicks consecutive sub-ticks and checks every cycle on the fly (C12), keeping
@@ -448,7 +456,16 @@ func (h5) Gen(prop, tier string, r *simrt.Rng) (any, simrt.Config) {
 		Strategy: simrt.Pick(r, "sticky", "rr", "rw"), SwitchProb: 0.01, MaxSimNs: c.StartOffsetNs + c.RunNs + int64(time.Hour), MaxSteps: 3000000,
 		RandExtreme: simrt.Pick(r, 0.0, 0.1, 0.4),
 	}
-	if (prop == "C09" || prop == "C10" || ((prop == "C12" || prop == "C13") && r.Intn(2) == 0)) && r.Intn(2) == 0 {
+	if (prop == "C09" || prop == "C02") && !c.Direct && c.PureTicks == 0 && r.Intn(4) == 0 {
+		// slow evaluations instead of stall faults: ticks become overdue while one is being handled
+		tick := h5Interval(c)
+		for i, n := 0, 3+r.Intn(5); i < n; i++ {
+			c.EvalSleepNs = append(c.EvalSleepNs, 0)
+		}
+		for i, n := 0, 1+r.Intn(2); i < n; i++ {
+			c.EvalSleepNs[r.Intn(len(c.EvalSleepNs))] = tick*int64(simrt.Pick(r, 13, 26, 7))/10 + 177
+		}
+	} else if (prop == "C09" || prop == "C10" || ((prop == "C12" || prop == "C13") && r.Intn(2) == 0)) && r.Intn(2) == 0 {
 		// a stalled ticking goroutine gets late and skipped ticks: C12's cycles are N sub-ticks whenever they come
 		tick := h5Interval(c) / ms
 		sc.StallPermille, sc.StallMaxMs, sc.MaxStalls = simrt.Pick(r, 2, 10, 30), int(simrt.Pick(r, int64(5), 50, 3*tick+1, 10*tick+1)), 1+r.Intn(5)
@@ -575,7 +592,7 @@ func h5Cadence(env *Env, c *H5Cfg, sh *h5Shared, stats simrt.Stats) {
 	if got > sum {
 		env.Violate("C09", "requests-created", "cadence/"+c.Kind, "rate evaluations sum to %d, but %d iterations were started and %d dropped", sum, sh.started, sh.dropped)
 	}
-	if stats.Stalls == 0 {
+	if stats.Stalls == 0 && len(c.EvalSleepNs) == 0 {
 		limit := c.RunNs
 		if limit%iv != 0 {
 			want := 1 + limit/iv
@@ -588,7 +605,7 @@ func h5Cadence(env *Env, c *H5Cfg, sh *h5Shared, stats simrt.Stats) {
 		}
 	}
 	// refinement: the pool must behave like the reference pool fed with exactly the evaluated values
-	if stats.Stalls == 0 && !c.Direct && c.RunNs%iv != 0 {
+	if stats.Stalls == 0 && len(c.EvalSleepNs) == 0 && !c.Direct && c.RunNs%iv != 0 {
 		var at []int64
 		var sizes []int
 		for _, call := range sh.outer {
@@ -606,6 +623,43 @@ func h5Cadence(env *Env, c *H5Cfg, sh *h5Shared, stats simrt.Stats) {
 		if len(c.BodyNs) > 0 && mo.dropped > 0 {
 			env.Hit("h5.model_checked_with_backlog")
 		}
+	}
+	// each evaluation's value is that tick's request, unchanged: strictly between two evaluation instants no more
+	// iterations can start than the last evaluation asked for, plus what free workers could still take from the
+	// requests it superseded at that very instant (stall-free runs: a stalled ticking goroutine may sit between evaluating and requesting)
+	if !c.Direct && uint64(len(sh.bodyBegin)) == sh.started && stats.Stalls == 0 {
+		for j := 0; j < len(sh.outer); {
+			t := sh.outer[j].CallNs
+			k := j
+			earlier := 0
+			for k+1 < len(sh.outer) && sh.outer[k+1].CallNs == t {
+				earlier += max(sh.outer[k].V, 0)
+				k++
+			}
+			next := int64(math.MaxInt64)
+			if k+1 < len(sh.outer) {
+				next = sh.outer[k+1].CallNs
+			}
+			free, inside := c.Concurrency, 0
+			for i, b := range sh.bodyBegin {
+				if b < t && b+sh.bodyDur[i] > t {
+					free--
+				}
+				if b > t && b < next {
+					inside++
+				}
+			}
+			allowed := max(sh.outer[k].V, 0) + min(max(free, 0), earlier)
+			if inside > allowed {
+				for _, p := range []string{"C09", "C02"} {
+					env.Violate(p, "started-more-than-requested", "cadence/window", "%d iterations began strictly between the evaluations at %s and %s; the evaluation at %s asked for %d (%d more evaluated at the same instant before it, %d workers free then)",
+						inside, dur(t), dur(next), dur(t), sh.outer[k].V, earlier, free)
+				}
+				break
+			}
+			j = k + 1
+		}
+		env.Hit("h5.window_starts_checked")
 	}
 	if sh.recorded != sh.started {
 		env.Violate("C01", "count-mismatch", "h5", "%d bodies ran, %d results recorded", sh.started, sh.recorded)
